@@ -60,13 +60,24 @@ def plans(draw, max_calls=12):
     calls.append({'at': draw(st.one_of(st.integers(0, 2 * T), st.sampled_from([0, 1, 2, 10, 20, 21, 22, 25, 30, 31, 35, 40, 50, 51, 55, 60]))), 'method': m, 'arg': '%s<c%d>%s' % (pre, i, draw(SUFFIX)),
                   'timeout_ms': draw(st.sampled_from([None, None, 20, 50])), 'via_dispatcher': draw(st.booleans())})
   pool = {'max': draw(st.integers(1, 2)), 'min': draw(st.integers(0, 1)), 'queue': None} if stack == 'thrift' else None
+  gate = None
+  if stack == 'thriftmux' and draw(st.sampled_from([False, False, True])):
+    # back pressure: the frame of one call without a deadline inside the run is held in the socket write for a while, so
+    # that later requests pile up in the connection's send queue (and may time out there) before the write completes
+    m0 = methods[0]
+    calls.append({'at': 5, 'method': m0, 'arg': '<c%d>nodeadline' % len(calls), 'timeout_ms': 100000, 'via_dispatcher': True})
+    gate = {'from_ms': 4, 'until_ms': 5 + draw(st.sampled_from([8, 22, 30, 55, T + 5]))}
+    # requests with short deadlines queued behind the held frame, and fresh calls right after the write resumes
+    for at_, tmo_ in [(draw(st.integers(6, 8)), draw(st.sampled_from([20, 50, 50]))), (draw(st.integers(8, 12)), draw(st.sampled_from([20, 20, 50]))),
+                      (gate['until_ms'] + draw(st.integers(0, 3)), None), (gate['until_ms'] + draw(st.integers(0, 6)), None)]:
+      calls.append({'at': at_, 'method': m0, 'arg': '<c%d>q' % len(calls), 'timeout_ms': tmo_, 'via_dispatcher': draw(st.booleans())})
   return {
       'seed': draw(st.integers(0, 2 ** 16)), 'stack': stack, 'iface': iface,
       'client_id': draw(st.sampled_from([None, 'cli'])) if stack == 'thriftmux' else None,
       'balancer': draw(st.sampled_from(['default', 'heap'])), 'pool': pool, 'timeout_ms': T, 'wait_open': True,
       'serverset': {'kind': 'uri', 'initial': ports, 'events': []},
       'servers': servers, 'calls': calls, 'run_ms': 3 * T + 400, 'close_at': None,
-      'reply_contexts': draw(st.booleans()),
+      'reply_contexts': draw(st.booleans()), 'gate': gate,
       'tag_state': draw(st.sampled_from([None, None, [254, []], [65534, []], [65537, [2]], [65537, [2, 3]], [2 ** 23 + 1, [2, 3]],
                                          [2 ** 16 + 2 ** 8 + 1, [2, 258]]])) if stack == 'thriftmux' else None,
   }
